@@ -142,7 +142,10 @@ class Summaries:
                         r.add(x)
         elif e.kind == "reflective" and self.reflective_targets:
             n = e.node
-            recv = n.func.args[0] if isinstance(n, ast.Call) and isinstance(n.func, ast.Call) and n.func.args else None
+            from .resolve import reflective_getattr
+
+            ga = reflective_getattr(n, fl.ctx) if isinstance(n, ast.Call) else None
+            recv = ga.args[0] if ga is not None and ga.args else None
             rroots = fl.roots(recv) if recv is not None else frozenset({"unk"})
             for cal in self.reflective_targets:
                 for x in self.writes.get(cal.key, set()):
